@@ -475,3 +475,154 @@ Proof.
   unfold p_newline. rewrite (bind_cons _ _ LF rest tt (char_exact LF rest)).
   unfold p_ret. cbn [shift fst snd]. f_equal. len_tac.
 Qed.
+
+(* ---------- one builder step per component ---------- *)
+
+Lemma parsed_nonempty buf n c : parse_component buf = ROk n c -> buf <> [].
+Proof.
+  intros H. destruct (parse_ok_stable buf n c H) as [[L1 L2] _]. intros ->. cbn [length] in L2. lia.
+Qed.
+
+Lemma bparse_step st buf n c :
+  parse_component buf = ROk n c -> bparse_all st buf = bstep_ne st buf bparse_all.
+Proof. intros H. rewrite bparse_all_unfold. apply bstep_nonempty. exact (parsed_nonempty buf n c H). Qed.
+
+Lemma step_field st k v rest :
+  wf_field (k, v) = true -> bparse_all st (enc_field k v ++ rest) = bparse_all (b_field st k v) rest.
+Proof.
+  intros W. pose proof (rt_field k v rest W) as P.
+  rewrite (bparse_step _ _ _ _ P). unfold bstep_ne. rewrite P, skipn_app_exact. reflexivity.
+Qed.
+
+Lemma step_binary st d rest :
+  wf_payload d = true -> bparse_all st (enc_binary d ++ rest) = bparse_all (b_binary st d) rest.
+Proof.
+  intros W. pose proof (rt_binary d rest W) as P.
+  rewrite (bparse_step _ _ _ _ P). unfold bstep_ne. rewrite P, skipn_app_exact, firstn_app_exact.
+  (* the payload is the [length d] bytes that precede the final line feed of the part *)
+  replace (firstn (length d) (skipn (length (enc_binary d) - (length d + 1)) (enc_binary d))) with d; [reflexivity|].
+  rewrite enc_binary_shape.
+  replace (length (bin_header (N.of_nat (length d)) ++ d ++ [LF]) - (length d + 1))%nat
+    with (length (bin_header (N.of_nat (length d)))) by len_tac.
+  rewrite skipn_app_exact, firstn_app_exact. reflexivity.
+Qed.
+
+Lemma step_list_ok st rest :
+  bparse_all st (enc_list_ok ++ rest) = bparse_all (b_finish_frame st) rest.
+Proof.
+  pose proof (rt_list_ok rest) as P.
+  rewrite (bparse_step _ _ _ _ P). unfold bstep_ne. rewrite P, skipn_app_exact. reflexivity.
+Qed.
+
+Lemma step_ok st rest : bparse_all st (enc_ok ++ rest) = (Initial, rest, Complete (b_finish st)).
+Proof.
+  pose proof (rt_ok rest) as P.
+  rewrite (bparse_step _ _ _ _ P). unfold bstep_ne. rewrite P, skipn_app_exact. reflexivity.
+Qed.
+
+Lemma step_error st e rest :
+  wf_err e = true -> bparse_all st (enc_error e ++ rest) = (Initial, rest, Complete (b_error st e)).
+Proof.
+  intros W. pose proof (rt_error e rest W) as P.
+  rewrite (bparse_step _ _ _ _ P). unfold bstep_ne. rewrite P, skipn_app_exact. destruct e; reflexivity.
+Qed.
+
+(* ---------- frames: the parts in wire order through the builder ---------- *)
+
+Definition b_part (st : bstate) (p : part) : bstate :=
+  match p with PField k v => b_field st k v | PBinary d => b_binary st d end.
+
+Definition add_part (f : frame) (p : part) : frame :=
+  match p with PField k v => push_field f k v | PBinary d => set_binary f d end.
+
+Definition wf_part (p : part) : bool :=
+  match p with PField k v => wf_field (k, v) | PBinary d => wf_payload d end.
+
+Lemma parts_run : forall ps st rest,
+  forallb wf_part ps = true ->
+  bparse_all st (flat_map enc_part ps ++ rest) = bparse_all (fold_left b_part ps st) rest.
+Proof.
+  induction ps as [|p ps IH]; intros st rest W; [reflexivity|].
+  cbn [forallb] in W. apply andb_true_iff in W as [W1 W2].
+  cbn [flat_map fold_left]. rewrite <- app_assoc.
+  destruct p as [k v|d]; cbn [enc_part wf_part b_part] in *.
+  - rewrite (step_field st k v _ W1). apply IH. exact W2.
+  - rewrite (step_binary st d _ W1). apply IH. exact W2.
+Qed.
+
+(* what the builder state is made of: the frame being built, the frames completed so far, and
+   whether a list_OK was seen (Initial behaves as "an empty frame in progress") *)
+Definition cur_of (st : bstate) : frame :=
+  match st with Initial => empty_frame | InProgress c => c | ListInProgress c _ => c end.
+Definition done_of (st : bstate) : list frame :=
+  match st with ListInProgress _ d => d | _ => [] end.
+Definition is_list (st : bstate) : bool :=
+  match st with ListInProgress _ _ => true | _ => false end.
+
+Lemma b_part_view st p :
+  cur_of (b_part st p) = add_part (cur_of st) p /\ done_of (b_part st p) = done_of st /\ is_list (b_part st p) = is_list st.
+Proof. destruct st, p; repeat split; reflexivity. Qed.
+
+Lemma fold_b_part_view : forall ps st,
+  cur_of (fold_left b_part ps st) = fold_left add_part ps (cur_of st) /\
+  done_of (fold_left b_part ps st) = done_of st /\
+  is_list (fold_left b_part ps st) = is_list st.
+Proof.
+  induction ps as [|p ps IH]; intros st; [repeat split; reflexivity|].
+  cbn [fold_left]. destruct (IH (b_part st p)) as (I1 & I2 & I3). destruct (b_part_view st p) as (V1 & V2 & V3).
+  rewrite I1, I2, I3, V1, V2, V3. repeat split; reflexivity.
+Qed.
+
+Lemma b_finish_view st : b_finish st = mkResp (if is_list st then done_of st else [cur_of st]) None.
+Proof. destruct st; reflexivity. Qed.
+Lemma b_error_view st e : b_error st e = mkResp (done_of st) (Some e).
+Proof. destruct st; reflexivity. Qed.
+Lemma b_finish_frame_view st : b_finish_frame st = ListInProgress empty_frame (done_of st ++ [cur_of st]).
+Proof. destruct st; reflexivity. Qed.
+
+Definition field_part (kv : bytes * bytes) : part := PField (fst kv) (snd kv).
+
+Lemma fold_add_fields : forall fs c,
+  fold_left add_part (map field_part fs) c = mkFrame (f_fields c ++ fs) (f_binary c).
+Proof.
+  induction fs as [|[k v] fs IH]; intros c.
+  - cbn [map fold_left]. rewrite app_nil_r. destruct c; reflexivity.
+  - cbn [map fold_left]. rewrite IH. unfold field_part, add_part, push_field. cbn [fst snd f_fields f_binary].
+    rewrite <- app_assoc. reflexivity.
+Qed.
+
+(* the decoded frame: fields in order, payload set once — wherever the binary part stood *)
+Lemma frame_fold f c :
+  fold_left add_part (frame_parts f) c =
+  mkFrame (f_fields c ++ af_fields f) (match af_bin f with Some d => Some d | None => f_binary c end).
+Proof.
+  unfold frame_parts. fold field_part. destruct (af_bin f) as [d|].
+  - rewrite fold_left_app. cbn [fold_left]. rewrite firstn_map, skipn_map, !fold_add_fields.
+    unfold add_part, set_binary. cbn [f_fields f_binary]. rewrite <- app_assoc, firstn_skipn. reflexivity.
+  - apply fold_add_fields.
+Qed.
+
+Lemma frame_fold_empty f : fold_left add_part (frame_parts f) empty_frame = dec_frame f.
+Proof. rewrite frame_fold. unfold dec_frame, empty_frame. cbn [f_fields f_binary app]. destruct (af_bin f); reflexivity. Qed.
+
+Lemma forallb_firstn_skipn {A} (p : A -> bool) n l :
+  forallb p l = true -> forallb p (firstn n l) = true /\ forallb p (skipn n l) = true.
+Proof. intros H. rewrite <- (firstn_skipn n l), forallb_app in H. apply andb_true_iff in H. exact H. Qed.
+
+Lemma wf_frame_parts f : wf_frame f = true -> forallb wf_part (frame_parts f) = true.
+Proof.
+  unfold wf_frame, frame_parts. fold field_part. intros H. apply andb_true_iff in H as [F B].
+  assert (M : forallb wf_part (map field_part (af_fields f)) = true).
+  { clear B. induction (af_fields f) as [|[k v] fs IH]; [reflexivity|]. cbn [forallb map] in *.
+    apply andb_true_iff in F as [F1 F2]. unfold field_part at 1. cbn [wf_part fst snd]. rewrite F1. exact (IH F2). }
+  destruct (af_bin f) as [d|]; [|exact M].
+  destruct (forallb_firstn_skipn wf_part (af_binpos f) _ M) as [M1 M2].
+  rewrite forallb_app. cbn [forallb wf_part]. rewrite M1, M2, B. reflexivity.
+Qed.
+
+(* C03, frames: the encoded frame drives the builder from the frame [cur_of st] to that frame
+   extended by the fields in order and the payload *)
+Lemma frame_run st f rest :
+  wf_frame f = true ->
+  bparse_all st (enc_frame f ++ rest) = bparse_all (fold_left b_part (frame_parts f) st) rest.
+Proof. intros W. unfold enc_frame. apply parts_run. apply wf_frame_parts. exact W. Qed.
